@@ -421,6 +421,20 @@ func init() {
 		return BoolT(rv != nil && rv.cell != nil)
 	})
 	V("CanSet", I["(reflect.Value).CanAddr"])
+	V("NumMethod", func(in *Interp, caller *frame, fn *ssa.Function, args []Value) Value {
+		rv := in.rvalueCheck(args[0], "NumMethod")
+		if it, ok := rv.t.Underlying().(*types.Interface); ok {
+			return intT(int64(it.NumMethods()))
+		}
+		n := 0
+		ms := in.prog.MethodSets.MethodSet(rv.t)
+		for i := 0; i < ms.Len(); i++ {
+			if ms.At(i).Obj().Exported() {
+				n++
+			}
+		}
+		return intT(int64(n))
+	})
 	V("CanInterface", func(in *Interp, caller *frame, fn *ssa.Function, args []Value) Value { return TT.True })
 	V("Addr", func(in *Interp, caller *frame, fn *ssa.Function, args []Value) Value {
 		rv := in.rvalueCheck(args[0], "Addr")
